@@ -585,6 +585,13 @@ func (g *Gen) History() []Step {
 	return g.steps
 }
 
+// StartAt makes the generator continue a history that already has the
+// versions first..latest (legacy databases) and number its steps from id.
+func (g *Gen) StartAt(first, latest int64, id int) {
+	g.first, g.latest, g.cur = first, latest, latest
+	g.id = id
+}
+
 // Steps returns the steps emitted so far.
 func (g *Gen) Steps() []Step { return g.steps }
 
